@@ -956,6 +956,12 @@ class BasePort(logging_utils.LoggableMixin, metaclass=abc.ABCMeta):
 
     async def reset(self) -> None:
         self.debug('resetting persisted data')
+
+        # Forget the expression; otherwise it would take part in the circular dependency check of the expressions that
+        # are restored on other ports before this port's own attributes are
+        self._expression = None
+        self.invalidate_attr('expression')
+
         await self.load_from_data(data={})
         self.invalidate_attrdefs()
 
